@@ -99,7 +99,65 @@ func decodeKind(kind string, src []byte) string {
 	return ""
 }
 
+// decreuse KIND HEX1 HEX2: two messages decoded one after the other into the SAME variable (as a
+// reader looping over concatenated messages does); a by-value copy of the first result is kept.
+// Decoding is a function of the bytes: the second result is what HEX2 decodes to on its own, and
+// the copy of the first is untouched.
+func decodeReuse(kind string, src1, src2 []byte) string {
+	switch kind {
+	case "header":
+		h := &wt.Header{}
+		rest1, err1 := h.TakeFrom(src1)
+		first := decOutcome(rest1, err1, func() string { return showHeader(h) })
+		keep := *h
+		keepStr := showHeader(&keep)
+		rest2, err2 := h.TakeFrom(src2)
+		second := decOutcome(rest2, err2, func() string { return showHeader(h) })
+		same := err1 != nil || showHeader(&keep) == keepStr
+		return fmt.Sprintf("first=[%s] second=[%s] firstcopy=%v", first, second, map[bool]string{true: "same", false: "changed"}[same])
+	case "points":
+		var pp wt.Points
+		show := func(pp wt.Points) string {
+			ss := []string{fmt.Sprint(len(pp))}
+			for _, p := range pp {
+				ss = append(ss, fmt.Sprintf("%d %s", uint32(p.Time), showBits(p.Value)))
+			}
+			return strings.Join(ss, " ")
+		}
+		rest1, err1 := pp.TakeFrom(src1)
+		first := decOutcome(rest1, err1, func() string { return show(pp) })
+		keep := pp
+		keepStr := show(keep)
+		rest2, err2 := pp.TakeFrom(src2)
+		second := decOutcome(rest2, err2, func() string { return show(pp) })
+		same := err1 != nil || show(keep) == keepStr
+		return fmt.Sprintf("first=[%s] second=[%s] firstcopy=%v", first, second, map[bool]string{true: "same", false: "changed"}[same])
+	case "series":
+		ts := &wt.TimeSeries{}
+		show := func(ts *wt.TimeSeries) string {
+			ss := []string{fmt.Sprintf("%d %d %d %d", uint32(ts.FromTime()), uint32(ts.UntilTime()), int32(ts.Step()), len(ts.Values()))}
+			for _, v := range ts.Values() {
+				ss = append(ss, showBits(v))
+			}
+			return strings.Join(ss, " ")
+		}
+		rest1, err1 := ts.TakeFrom(src1)
+		first := decOutcome(rest1, err1, func() string { return show(ts) })
+		keep := *ts
+		keepStr := show(&keep)
+		rest2, err2 := ts.TakeFrom(src2)
+		second := decOutcome(rest2, err2, func() string { return show(ts) })
+		same := err1 != nil || show(&keep) == keepStr
+		return fmt.Sprintf("first=[%s] second=[%s] firstcopy=%v", first, second, map[bool]string{true: "same", false: "changed"}[same])
+	}
+	must(fmt.Errorf("unknown kind %q", kind))
+	return ""
+}
+
 func init() {
+	register("decreuse", func(s *sess, tk []string) {
+		s.obs("decreuse %s", decodeReuse(tk[1], unhex(tk[2]), unhex(tk[3])))
+	})
 	register("enc", func(s *sess, tk []string) {
 		var out []byte
 		switch tk[1] {
